@@ -36,6 +36,7 @@ LEVEL_TEXT += ' Added clause: rendering keeps no state that a modifier fails to 
 TECHNIQUE += '; converse inclusion: every match of the stripping regex begins with ESC'
 TECHNIQUE += '; no shared rendering state: module-level containers of tatsu/ztyle and tatsu/util/tty.py are derived constant tables, no memoised rendering function (R8)'
 LEVEL_TEXT += ' Added clause: only escape sequences are stripped.'
+LEVEL_TEXT += ' Added clauses (rounds 9-11): no module-level mutable state or memoised rendering function in the styling modules.'
 LEVEL_NOTE = 'Trusted: format(text, spec) of the standard library; re semantics as parsed by re._parser.'
 EXPLANATION = ('Static analysis of /repo sources, TatSu not imported. Style.apply / apply_style / from_raw are interpreted by the '
                'whitelisted evaluator on checker-built style objects; regex literals of tatsu/util/tty.py are recompiled by the checker.')
